@@ -7,7 +7,11 @@ W1(r) == r.sg.a < r.sg.r
 W2(r) == r.fn = "self_sign" /\ ~HasSameDay(Now(r), 20)
 W3(r) == MsWidth(r.clock) = 4
 W4(r) == r.fn = "derive" /\ CivilFromDays(r.start.d).y < CivilFromDays(AddSec(r.start, r.dur).d).y
-W5(r) == NumSize(Reserved(CertCfg(r)).len) # NumSize(Final(CertCfg(r)).len) \/ Reserved(CertCfg(r)).len >= 253
+W5(r) == NumSize(Reserved(CertCfg(r)).len) = 3 /\ NumSize(Final(CertCfg(r)).len) = 1
+W5b(r) == NumSize(Reserved(CertCfg(r)).len) = 5 /\ NumSize(Final(CertCfg(r)).len) = 3
+W15(r) == r.host # "UTC" /\ r.tz = -1000
+W16(r) == r.zone # ""
+W17(r) == CivilFromDays(r.start.d).y < 1000
 W6(r) == r.fn = "derive" /\ r.tz # -1000 /\ r.tz # 0
 W12(r) == r.fn = "self_sign" /\ HasSameDay(Now(r), 20) /\ CivilFromDays(Now(r).d).m = 2 /\ CivilFromDays(Now(r).d).d = 29
 W13(r) == \E i \in 1..(Len(r.lit) - 3) : r.lit[i] = "KEY" /\ i = Len(r.lit) - 3
@@ -17,7 +21,8 @@ W8(r) == r.fn = "new_cert" /\ r.tz \notin {-1000, 0} /\ r.tz2 = -1000
 W9(r) == r.fn = "derive" /\ r.idform = "typed" /\ r.issuer.t # 8
 W10(r) == r.fn = "derive" /\ r.idform = "escaped" /\ r.issuer.t = 8
 W11(r) == r.fn = "derive" /\ r.idform = "short"
-ASSUME PrintT(<<"WITNESSES", [LeapDayWithSameDay |-> Wit(W12), KeyInsideIdentity |-> Wit(W13), ReservedWordInIdentity |-> Wit(W14),
+ASSUME PrintT(<<"WITNESSES", [OuterNarrows5to3 |-> Wit(W5b), NaiveOnNonUtcHost |-> Wit(W15), DstZone |-> Wit(W16), YearBelow1000 |-> Wit(W17),
+                               LeapDayWithSameDay |-> Wit(W12), KeyInsideIdentity |-> Wit(W13), ReservedWordInIdentity |-> Wit(W14),
                                NaiveStartAwareEnd |-> Wit(W7), AwareStartNaiveEnd |-> Wit(W8), TypedTextId |-> Wit(W9),
                                EscapedTextId |-> Wit(W10), ShorthandTextId |-> Wit(W11), Shrink |-> Wit(W1), LeapDayNoSameDay |-> Wit(W2), Version4 |-> Wit(W3),
                                YearBoundary |-> Wit(W4), LongOuter |-> Wit(W5), NonUtcZone |-> Wit(W6)],
